@@ -246,3 +246,96 @@ Proof.
   rewrite IN in GAP.
   assert ((o - o' < 1)%Z) by (apply lt_IZR; lra). lia.
 Qed.
+
+(* ------------------------------------------------------------------------------------------ *)
+(** * The [subseconds >= 1e9] branch of the decoder is dead code
+
+    The fraction fs - Floor fs is itself a binary64 number below 1, hence at most 1 - 2^-53; then
+    1e9 * fraction <= 1e9 - 1.11e-7, and rounding to nearest (half an ulp = 2^-24 = 5.96e-8 there)
+    stays below 1e9. *)
+
+Lemma below_one_le_pred x : generic_format radix2 fexp64 x -> x < 1 -> x <= 1 - / 9007199254740992.
+Proof.
+  intros G H.
+  pose proof (pred_ge_gt radix2 fexp64 x 1 G ltac:(change 1 with (bpow radix2 0); apply format_bpow; lia) H) as P.
+  change 1 with (bpow radix2 0) in P at 1. rewrite pred_bpow in P.
+  change (fexp64 0) with (-53)%Z in P. change (bpow radix2 0) with 1 in P.
+  change (bpow radix2 (-53)) with (/ IZR (2 ^ 53)) in P. change (2 ^ 53)%Z with 9007199254740992%Z in P. exact P.
+Qed.
+
+Lemma RN_below_1e9 x : 0 <= x <= 1000000000 * (1 - / 9007199254740992) -> RN x < 1000000000.
+Proof.
+  intros Hx. destruct (Rlt_or_le x 536870912) as [L | G].
+  - (* below 2^29: rounds to at most 2^29 *)
+    apply Rle_lt_trans with 536870912; [ | lra ].
+    apply round_le_generic; [ typeclasses eauto | typeclasses eauto | | lra ].
+    change 536870912 with (bpow radix2 29). apply format_bpow. lia.
+  - pose proof (error_le_half_ulp radix2 fexp64 (fun z => negb (Z.even z)) x) as E.
+    change (round radix2 fexp64 (Znearest (fun z => negb (Z.even z))) x) with (RN x) in E.
+    rewrite ulp_neq_0 in E by lra.
+    assert (M : mag radix2 x = 30%Z :> Z).
+    { apply mag_unique_pos. change (bpow radix2 (30 - 1)) with 536870912. change (bpow radix2 30) with 1073741824. lra. }
+    unfold cexp in E. rewrite M in E. change (fexp64 30) with (-23)%Z in E.
+    change (bpow radix2 (-23)) with (/ IZR (2 ^ 23)) in E. change (2 ^ 23)%Z with 8388608%Z in E.
+    apply Rabs_le_inv in E. lra.
+Qed.
+
+Lemma dec_sub_below fs : bnd 17 fs -> B2R (dec_sub_of fs) < 1000000000.
+Proof.
+  intros Bf. destruct (frac_exact fs 17 ltac:(lia) Bf) as [Efr Ffr].
+  pose proof (Zfloor_lb (B2R fs)) as LB. pose proof (Zfloor_ub (B2R fs)) as UB.
+  assert (G : generic_format radix2 fexp64 (B2R fs - IZR (Zfloor (B2R fs)))) by (rewrite <- Efr; apply generic_format_B2R).
+  pose proof (below_one_le_pred _ G ltac:(lra)) as P.
+  assert (Bfr : bnd 0 (f64_sub fs (f64_floor fs))) by (split; [ exact Ffr | rewrite Efr; simpl; lra ]).
+  destruct c_1e9_value as [E9 B9].
+  destruct (mul_spec _ _ 30 0 ltac:(lia) ltac:(lia) ltac:(lia) B9 Bfr) as [ES _].
+  fold (dec_sub_of fs) in ES. rewrite ES, E9, Efr. apply RN_below_1e9. split; [ nra | nra ].
+Qed.
+
+Theorem dec_nowrap_always ipd k : (1 <= ipd <= 2 ^ 17)%Z -> (0 <= k < 2 ^ 32)%Z -> dec_nowrapb ipd k = true.
+Proof.
+  intros Hi Hk.
+  pose proof (dec_fs_accuracy ipd k Hi Hk) as A. cbn zeta in A.
+  pose proof (dec_fs_finite ipd k Hi Hk) as Ff.
+  assert (I1 : 1 <= IZR ipd <= 131072) by (split; apply IZR_le; lia).
+  assert (K0 : 0 <= IZR k <= 4294967296) by (split; apply IZR_le; lia).
+  assert (Ht : 49710 <= tps_exact ipd) by (unfold tps_exact; lra).
+  set (p := IZR k / tps_exact ipd) in *.
+  assert (P0 : 0 <= p <= 86400).
+  { unfold p. split.
+    - apply Rmult_le_pos; [ lra | left; apply Rinv_0_lt_compat; lra ].
+    - apply Rmult_le_reg_r with (tps_exact ipd); [ lra | ]. unfold Rdiv. rewrite Rmult_assoc, Rinv_l by lra.
+      unfold tps_exact in *. nra. }
+  pose proof u_pos as U.
+  assert (Bf : bnd 17 (dec_fs ipd k)).
+  { split; [ exact Ff | ]. change (bpow radix2 17) with 131072. unfold u in *. nra. }
+  pose proof (dec_sub_below _ Bf) as SL.
+  unfold dec_nowrapb. apply negb_true_iff. unfold f64_ge.
+  destruct (frac_exact _ 17 ltac:(lia) Bf) as [Efr Ffr].
+  assert (Bfr : bnd 0 (f64_sub (dec_fs ipd k) (f64_floor (dec_fs ipd k)))).
+  { split; [ exact Ffr | ]. rewrite Efr. pose proof (Zfloor_lb (B2R (dec_fs ipd k))). pose proof (Zfloor_ub (B2R (dec_fs ipd k))).
+    simpl. lra. }
+  destruct c_1e9_value as [E9 B9].
+  destruct (mul_spec _ _ 30 0 ltac:(lia) ltac:(lia) ltac:(lia) B9 Bfr) as [_ [FS _]].
+  fold (dec_sub_of (dec_fs ipd k)) in FS.
+  rewrite (Bleb_correct 53 1024 _ _ (proj1 B9) FS). rewrite E9.
+  destruct (Rle_bool_spec 1000000000 (B2R (dec_sub_of (dec_fs ipd k)))); [ lra | reflexivity ].
+Qed.
+
+(** C10, the full statement: every timeframe, every offset, no side condition *)
+Theorem roundtrip ipd o : In ipd ipds -> (0 <= o < interval_ns ipd)%Z ->
+  let o' := dec_offset ipd (enc ipd o) in
+  (0 <= o' <= o)%Z /\ (o - o' <= step_ns ipd)%Z /\ (ipd = 86400%Z -> o' = o).
+Proof.
+  intros Hin Ho o'. destruct (ipds_range ipd Hin) as [Hi Hn].
+  destruct (enc_mono ipd o o Hin ltac:(lia) ltac:(lia)) as [[K0 _] K1].
+  pose proof (dec_nowrap_always ipd (enc ipd o) ltac:(lia) ltac:(lia)) as NW.
+  destruct (roundtrip_nowrap ipd o Hin Ho NW) as (R1 & R2 & R3). fold o' in R1, R2, R3.
+  split; [ exact R1 | ]. split; [ | exact R3 ].
+  (* step_ns = ceil (interval / 2^32) >= interval / 2^32 *)
+  assert (S : IZR (interval_ns ipd) / 4294967296 <= IZR (step_ns ipd)).
+  { unfold step_ns. set (n := interval_ns ipd) in *.
+    assert (Z : (n <= (n + 4294967295) / 4294967296 * 4294967296)%Z) by (Z.div_mod_to_equations; lia).
+    apply IZR_le in Z. rewrite mult_IZR in Z. lra. }
+  assert ((o - o' < step_ns ipd + 1)%Z) by (apply lt_IZR; rewrite plus_IZR; lra). lia.
+Qed.
